@@ -227,15 +227,20 @@ pre listing span template ruby rt center address sarcasm""".split()
 T_CORE = ["<b>", "<a>", "<p>", "<div>", "<li>", "<table>", "<tr>", "<td>", "<caption>", "<select>", "<option>", "<input>", "<button>", "<form>",
           "<svg>", "<math>", "<frameset>", "<body>", "<html>", "<head>", "<title>", "<script>", "<textarea>", "<pre>", "<h1>", "<hr>",
           "<object>", "<nobr>", "<dd>", "<rt>", "</b>", "</a>", "</p>", "</div>", "</table>", "</td>", "</select>", "</body>", "</html>",
-          "</br>", "</form>", "</object>", "x", " ", "\n", "<!--c-->", "<col>", "<font color=x>", "<image>", "<plaintext>"]
+          "</br>", "</form>", "</object>", "x", " ", "\n", "<!--c-->", "<col>", "<font color=x>", "<image>", "<plaintext>", "&#10;", "&#10;y",
+          "</mi>", "</svg>", "</math>", "</desc>"]
 T_FMT = ["<b>", "<i>", "<a>", "<nobr>", "<b id=1>", "<b x=1 y=2>", "<b y=2 x=1>", "<font>", "<p>", "<div>", "<applet>", "<object>", "<marquee>", "<table>", "<td>", "<button>",
          "</b>", "</i>", "</a>", "</nobr>", "</p>", "</div>", "</applet>", "</object>", "</table>", "</td>", "x", " ", "<li>", "<select>", "</body>",
          "<svg>"]
 
 
+T_TBL = ["</mi>", "</svg>", "</math>", "</desc>", "</table>", "</td>", "</tr>", "</caption>", "</select>", "</b>", "</p>", "x", " ", "<td>", "<tr>",
+         "<b>", "<p>", "<table>", "<math>", "<svg>", "<mi>", "<select>", "<!--c-->", "<caption>", "<input type=hidden>", "<form>", "&#10;"]
+
+
 def t_all():
     out = ["<%s>" % n for n in T_START] + ["</%s>" % n for n in T_END]
-    out += ["x", " ", "\n", "\x00", "<!--c-->", "<!DOCTYPE html>", "<input type=hidden>", "<font color=x>", "<annotation-xml encoding=text/html>",
+    out += ["&#10;", "&#10;y", "&#32;", "&amp;", "x", " ", "\n", "\x00", "<!--c-->", "<!DOCTYPE html>", "<input type=hidden>", "<font color=x>", "<annotation-xml encoding=text/html>",
             "<svg/>", "<math definitionurl=a xlink:href=b>", "<![CDATA[x]]>", "<body a=1>", "<html b=2>", "<a href=1>", "<br/>"]
     return out
 
@@ -252,7 +257,8 @@ def cover_tests(ctx, spec_listed):
     jobs = []
     plans = [("cover", "doc", 3, T_CORE if q else t_all(), 0.04 if q else 1.0),
              ("cover_afe", "doc", 4 if q else 5, T_FMT, 0.06 if q else 1.0),
-             ("cover", "tableish", 2, T_CORE if q else t_all(), 0.03 if q else 0.5)]
+             ("cover", "tableish", 2, T_CORE if q else t_all(), 0.03 if q else 0.5),
+             ("cover_tbl", "doc", 4 if q else 5, T_TBL, 0.25 if q else 1.0)]
     for theme, cont, n, toks, frac in plans:
         r = ctx.tlc("MC_TreeCover", cover_cfg(theme, cont, n, spec_listed), "cover-%s-%s" % (theme, cont), heap="16g")
         ctx.notes["cover_prefixes_%s_%s" % (theme, cont)] = len(r.records)
